@@ -3,10 +3,12 @@
    (coverage.py:_normalize_coverage, profile.py:get_sam_profile_data, sam.py:_load_cn_region).
    Values are exact rationals; [nres_eq] compares results with Qeq on the values.
 
-   Not stated here: "the reported gene structure does not depend on the sequencing depth".  In the model the structure
-   stage (CnSpec.estimate_cn) takes the normalised vector as its input, so it follows from [C07_norm_scale_invariant]
-   for everything except _filter_configs, which uses the ABSOLUTE parameter min_coverage (DESIGN.md, C07). *)
-From Aldy Require Import Base Consts Norm NormProofs Exprs_norm Tied_norm.
+   "The reported gene structure does not depend on the sequencing depth": in the model the structure stage takes the normalised
+   vector as its input; written in lowest terms ([canon]) that vector is THE SAME DATA for a sample sequenced k times deeper, so
+   every function of it agrees (C07_structure_depth_independent; spelled out for CnSpec.solve_cn in C07_cn_stage_depth_independent).
+   Not covered by that: _filter_configs, which uses the ABSOLUTE parameter min_coverage (DESIGN.md, C07), and double rounding. *)
+From Aldy Require Import Base Consts Norm NormProofs NormCanonProofs Exprs_norm Tied_norm.
+From Aldy Require CnModel CnSpec.
 Open Scope Z_scope.
 
 (* every count multiplied by k > 0: every normalised region value is unchanged *)
@@ -86,6 +88,25 @@ Example C07_example_self : o_nres (normalize_against ex_regions (40, 50) (pileup
 Proof. vm_compute. reflexivity. Qed.
 Example C07_example_empty : normalize 8 [] (60, 70) (pileup ex_reads) (pileup ex_reads) = NNeutralEmpty.
 Proof. vm_compute. reflexivity. Qed.
+
+(* ---- consequently: the structure stage ---- *)
+Theorem C07_canon_is_the_value : forall r, nres_eq (canon r) r.
+Proof. exact canon_sound. Qed.
+Goal True. idtac "ASSUME C07_canon_is_the_value". Abort.
+Print Assumptions C07_canon_is_the_value.
+
+Theorem C07_structure_depth_independent : forall (T : Type) (F : nres -> T) nv regions cn k rg rn, (0 < k)%nat ->
+  F (canon (normalize nv regions cn (pileup (dup k rg)) (pileup (dup k rn)))) = F (canon (normalize nv regions cn (pileup rg) (pileup rn))).
+Proof. exact @structure_depth_independent. Qed.
+Goal True. idtac "ASSUME C07_structure_depth_independent". Abort.
+Print Assumptions C07_structure_depth_independent.
+
+Theorem C07_cn_stage_depth_independent : forall c i names nv regions cn k rg rn, (0 < k)%nat ->
+  CnSpec.solve_cn c (with_cov i (region_cov_of names (canon (normalize nv regions cn (pileup (dup k rg)) (pileup (dup k rn)))))) =
+  CnSpec.solve_cn c (with_cov i (region_cov_of names (canon (normalize nv regions cn (pileup rg) (pileup rn))))).
+Proof. exact cn_stage_depth_independent. Qed.
+Goal True. idtac "ASSUME C07_cn_stage_depth_independent". Abort.
+Print Assumptions C07_cn_stage_depth_independent.
 
 (* ================================================================= tie to the current source tree
    The decision expressions below are regenerated from /repo's Python AST on every run (harness/gen_exprs.py -> gen/Exprs_norm.v);
